@@ -853,7 +853,7 @@ pub fn run(opts: &Opts) {
     }
 
     let mut rng = Rng::new(opts.seed);
-    let k = opts.scale * if opts.thorough() { 300 } else { 8 };
+    let k = opts.scale * if opts.thorough() { 100 } else { 8 };
 
     out.begin_case("consts");
     op_consts(&mut out, &ctx);
